@@ -520,7 +520,9 @@ class Sim:
         affected statements at or downstream of a statement where that counterfactual differs from the real model?"""
         m = self.last_model_before
         for sig, kw in (('D1_dirty_edge_ignores_discovered_inputs', dict(cf_dirty_ignores_discovered=True)),
-                        ('D8_failed_command_touched_output_trusted', dict(cf_trust_after_failed_touch=True))):
+                        ('D8_failed_command_touched_output_trusted', dict(cf_trust_after_failed_touch=True)),
+                        ('D1_dirty_edge_ignores_discovered_inputs+D8_failed_command_touched_output_trusted',
+                         dict(cf_dirty_ignores_discovered=True, cf_trust_after_failed_touch=True))):
             p = m.plan(self.g, files_before, targets, **kw)
             if p['error'] is None and need_same_run and sorted(p['run']) != sorted(started) and p['ignored']:
                 # a restat statement that ran without its discovered inputs may or may not have reproduced its old
